@@ -365,6 +365,11 @@ def run(rep: Report, tier: str) -> None:
                             f"transpiler's structure for the same intermediate result is {_b[1].summary() if _b[0] == 'ok' else _b}: an enclosing operator joins on / projects the wrong "
                             f"identifiers (nested expressions such as (DS_1 + DS_2) * DS_3 give spurious or missing datapoints)"))
     rep.floor("R01.6 shapes", _n, 6)
+    # ---- R01.9 the SQL of an operator is a function of (operator, operands, operand TYPE): nothing in between remembers less ----
+    rep.rule("R01.9", "no hand-rolled cache in the SQL generation whose key omits an argument of the cached computation (the typed Time_Period / Duration templates are selected by data_type)")
+    from sa import globalsx as _gx9
+    _gx9.report_handrolled_memos(P, rep, "R01.9", ("vtlengine.duckdb_transpiler",),
+                                 "a comparison of Duration / Time_Period values rendered after the same text was rendered for Strings gets the plain text comparison (and the reverse)")
     # ---- R01.8 operands are matched by identifier TEXT: a Time_Period identifier has one stored text per period ----
     rep.rule("R01.8", "every accepted spelling of a Time_Period is stored as the one canonical text (datasets are joined and compared on that text)")
     from sa.checks.c21 import spelling_grid
